@@ -365,6 +365,8 @@ def get_playback_test(h, logf, timeout_s):
         subprocess.run(cmd, cwd=WS, env=cargo_env(), stdout=lf, stderr=subprocess.STDOUT, preexec_fn=limit_mem)
     text = open(logf, errors="replace").read()
     tests = re.findall(r"```\n(.*?)```", text, re.S)
+    # keep counterexamples of failed checks only (reachability-witness playbacks are not violations)
+    tests = [t for t in tests if "Check for `cover`" not in t]
     return tests
 
 
@@ -389,21 +391,27 @@ def run_replay(rep, tag="replay"):
     try:
         with open(modfile, "w") as f:
             f.write(orig + "\n// ---- injected concrete playback test(s) ----\n" + rep["test_code"] + "\n")
-        for prof, extra in (("dev", []), ("release", ["--release"])):
+        # `cargo kani playback` has no --release; the release profile users run is emulated by
+        # switching off overflow checks and debug assertions and optimising (cargo profile env overrides)
+        rel_env = {}
+        for prof_name in ("DEV", "TEST"):
+            rel_env[f"CARGO_PROFILE_{prof_name}_OVERFLOW_CHECKS"] = "false"
+            rel_env[f"CARGO_PROFILE_{prof_name}_DEBUG_ASSERTIONS"] = "false"
+            rel_env[f"CARGO_PROFILE_{prof_name}_OPT_LEVEL"] = "2"
+        for prof, extra_env in (("dev", {}), ("release", rel_env)):
             logf = os.path.join(WORK, f"{tag}_{rep['harness']}_{prof}.log")
-            cmd = ["cargo", "kani", "playback", "-Z", "concrete-playback", "-p", pkg, *extra,
-                   "--", rep["test_name"], "--exact", "--nocapture"]
-            # `--exact` needs the module path
-            cmd = ["cargo", "kani", "playback", "-Z", "concrete-playback", "-p", pkg, *extra,
+            cmd = ["cargo", "kani", "playback", "-Z", "concrete-playback", "-p", pkg,
                    "--", rep["test_name"]]
+            env = cargo_env()
+            env.update(extra_env)
             with open(logf, "w") as lf:
-                p = subprocess.run(cmd, cwd=WS, env=cargo_env(), stdout=lf, stderr=subprocess.STDOUT)
+                p = subprocess.run(cmd, cwd=WS, env=env, stdout=lf, stderr=subprocess.STDOUT)
             text = open(logf, errors="replace").read()
-            ran = re.search(r"test \S*" + re.escape(rep["test_name"]) + r" \.\.\. (ok|FAILED)", text)
+            ran = re.findall(r"test \S*" + re.escape(rep["test_name"]) + r"\w* \.\.\. (ok|FAILED)", text)
             if not ran:
                 res[prof] = None  # did not run (build problem)
             else:
-                res[prof] = ran.group(1) == "FAILED"
+                res[prof] = "FAILED" in ran
             m = re.search(r"panicked at ([^\n]*)\n([^\n]*)", text)
             res[prof + "_panic"] = (m.group(1) + " " + m.group(2)) if m else ""
             res[prof + "_log"] = logf
@@ -493,6 +501,27 @@ def check(prop, tier, only, jobs, seed):
             if r is None:
                 r = dict(status="unknown", failed=[], checks=0, nfailed=0, covers=(0, 0), time=0.0, notes=["no output"], raw="")
             results[h["name"]] = r
+    # second chance for harnesses that ran out of time/memory: the other SAT back end
+    # (measured: minisat and cadical differ by 10x in either direction depending on the harness)
+    retry = [h for h in sel if h["name"] in results and classify(results[h["name"]])[0] == "inconclusive"
+             and not results[h["name"]]["failed"] and os.environ.get("VERIF_NO_FALLBACK") != "1"]
+    if retry:
+        by = {}
+        for h in retry:
+            alt = "cadical" if h["solver"] == "minisat" else "minisat"
+            by.setdefault((h["pkg"], alt), []).append(h)
+        for (pkg, alt), lst in by.items():
+            tmo = max([int(h["timeout"]) for h in lst if h["timeout"]] + [default_timeout])
+            logf = os.path.join(WORK, f"kani_{prop}_{pkg}_fallback_{alt}.log")
+            log(f"[{prop}] retrying {len(lst)} inconclusive harnesses of {pkg} with --solver {alt}")
+            rc, text, wall = run_kani(pkg, lst, min(jobs, len(lst)), tmo, logf, extra=("--solver", alt))
+            parsed = parse_kani_output(text)
+            for h in lst:
+                r = parsed.get(h["full"])
+                if r is not None and classify(r)[0] != "inconclusive":
+                    r["solver_used"] = alt
+                    results[h["name"]] = r
+                    inconclusive[:] = [i for i in inconclusive if not i.startswith(h["name"] + ":")]
     known = load_known()
     violations = []
     known_hits = []
@@ -592,7 +621,7 @@ def make_replay(prop, h, fails, timeout_s):
         native_pkg=npkg,
         module_file=os.path.join(nd, "src", os.path.relpath(h["file"], os.path.join(h["crate"], "src"))),
         failed_checks=fails,
-        test_name=names[0] if names else "kani_concrete_playback",
+        test_name="kani_concrete_playback_" + h["name"],
         test_code=code,
         how_to_run=f"./check {prop} --replay replays/{prop}/{h['name']}.json",
     )
@@ -616,7 +645,7 @@ def write_evidence(prop, tier, seed, sel, results, known_hits, inconclusive, wal
         if (r.get("verdict") == "held" and r.get("status") == "success" and cov[0] == cov[1]) or r.get("verdict") == "violated":
             nontrivial += 1
         samples.append(dict(
-            harness=h["full"], crate=h["pkg"], shape=h["shape"], unwind=h["unwind"], solver=h["solver"],
+            harness=h["full"], crate=h["pkg"], shape=h["shape"], unwind=h["unwind"], solver=r.get("solver_used", h["solver"]),
             verdict=r.get("verdict", "not-run"), checks_discharged=r.get("checks", 0),
             failed_checks=[f"{f['desc']} @ {f['func']}" for f in r.get("failed", [])],
             reachability_witnesses=f"{cov[0]}/{cov[1]}", verification_time_s=r.get("time", 0.0),
